@@ -109,6 +109,24 @@ CLAIMS = {
         note="Trusted: Python int.from_bytes/to_bytes, slicing, struct.unpack('B'); X.690 8.1 rules transcribed in rules/c07.py.",
         ref="DESIGN.md section 5 / C07",
     ),
+    "C01": dict(
+        technique="static analysis: encrypt/decrypt duality by argument provenance (reaching definitions), dual-primitive tables, role-by-role copies, twin diff; composes the C02/C03/C06/C09/C10 obligations the statement depends on",
+        text="Decides the duality obligations necessary for the round trip: every emitted algorithm OID has a decrypt branch calling the dual primitive with key/nonce/AAD of equal provenance; the algorithm and parameter definitions used to encrypt are the ones stored in the blob, the nonce in the GCM parameters is the one generated with the CEK, the wrapped CEK is the encrypting CEK; key position derived = stored = copied into the identifier; both blob layouts are dual; cache store keeps covering material; async = sync; plus the KEK duality (C03) and derivation conventions (C02). Does not decide: the equality unprotect(protect(x)) = x itself.",
+        note="Trusted: cryptography's wrap/unwrap and AES-GCM encrypt/decrypt are inverse for equal key, nonce, AAD.",
+        ref="DESIGN.md section 5 / C01",
+    ),
+    "C03": dict(
+        technique="static analysis: pairwise argument provenance of the KDF / compute_kek calls on the two sides, recipe-shape rules for DH/ECDH/concat-KDF, layout tables for fixed-width big-endian packing",
+        text="Decides that both sides are one computation on dual inputs: nonce-mode kdf calls have pairwise equal arguments; public-key mode reaches one compute_kek with equal parameters, the private key length expression is the same on both sides, pow/ECDH use the unreduced big-endian private key, SP800-56A concat KDF and final KDF parameters are as specified; every group element / coordinate / shared secret is packed big-endian at key_length, never at a value-derived width. Does not decide: equality with an independent implementation's bytes.",
+        note="Trusted: cryptography's KBKDFHMAC/ConcatKDFHash/ECDH, Python pow(); recipe transcribed in rules/c03.py.",
+        ref="DESIGN.md section 5 / C03",
+    ),
+    "C04": dict(
+        technique="static analysis: provenance of the data handed to AESGCM.decrypt / aes_key_unwrap, single-verified-path rule on returns, use-of-every-identifier-field rule, handler scan over the decrypt region",
+        text="Decides: the whole enc_content / enc_cek reach the one-shot AEAD / key-unwrap primitives with no slicing and no second decryption path; every return of the unprotect functions, _decrypt_blob and content_decrypt is that verified result; no handler in the decrypt region continues after a failure; every key-identifier field and the protection descriptor is used on the path producing the KEK and the nonce comes from the blob's parameters. Does not decide: cryptographic strength; bit-level coverage.",
+        note="Trusted: AESGCM.decrypt raises InvalidTag unless the tag verifies; aes_key_unwrap raises InvalidUnwrap.",
+        ref="DESIGN.md section 5 / C04",
+    ),
 }
 
 NA_REASON = "check not built yet in this session (design in DESIGN.md section 5); not claimed until its engine passes the self-test"
